@@ -123,6 +123,9 @@ fn swap_join_condition(cond: &BoundExpression) -> BoundExpression {
 
 /// Shifts column indices by offset.
 fn shift_columns(expr: &BoundExpression, offset: i32) -> Option<BoundExpression> {
+    let shift_all = |items: &[BoundExpression]| -> Option<Vec<BoundExpression>> {
+        items.iter().map(|e| shift_columns(e, offset)).collect()
+    };
     match expr {
         BoundExpression::ColumnBinding(c) => {
             let new_idx = c.column_idx as i32 + offset;
@@ -146,32 +149,98 @@ fn shift_columns(expr: &BoundExpression, offset: i32) -> Option<BoundExpression>
             right: Box::new(shift_columns(right, offset)?),
             result_type: *result_type,
         }),
+        // Every other expression kind that can hold column references must be shifted as well,
+        // otherwise a pushed-down predicate keeps pointing into the joined row.
+        BoundExpression::UnaryOp {
+            op,
+            expr,
+            result_type,
+        } => Some(BoundExpression::UnaryOp {
+            op: *op,
+            expr: Box::new(shift_columns(expr, offset)?),
+            result_type: *result_type,
+        }),
+        BoundExpression::IsNull { expr, negated } => Some(BoundExpression::IsNull {
+            expr: Box::new(shift_columns(expr, offset)?),
+            negated: *negated,
+        }),
+        BoundExpression::InList {
+            expr,
+            list,
+            negated,
+        } => Some(BoundExpression::InList {
+            expr: Box::new(shift_columns(expr, offset)?),
+            list: shift_all(list)?,
+            negated: *negated,
+        }),
+        BoundExpression::Between {
+            expr,
+            low,
+            high,
+            negated,
+        } => Some(BoundExpression::Between {
+            expr: Box::new(shift_columns(expr, offset)?),
+            low: Box::new(shift_columns(low, offset)?),
+            high: Box::new(shift_columns(high, offset)?),
+            negated: *negated,
+        }),
+        BoundExpression::Function {
+            func,
+            args,
+            distinct,
+            return_type,
+        } => Some(BoundExpression::Function {
+            func: func.clone(),
+            args: shift_all(args)?,
+            distinct: *distinct,
+            return_type: *return_type,
+        }),
         BoundExpression::Literal { .. } => Some(expr.clone()),
         _ => Some(expr.clone()),
     }
 }
 
+/// Column indexes referenced anywhere inside an expression (sub-queries excluded).
+fn referenced_columns(expr: &BoundExpression, out: &mut Vec<usize>) {
+    match expr {
+        BoundExpression::ColumnBinding(c) => out.push(c.column_idx),
+        BoundExpression::BinaryOp { left, right, .. } => {
+            referenced_columns(left, out);
+            referenced_columns(right, out);
+        }
+        BoundExpression::UnaryOp { expr, .. } | BoundExpression::IsNull { expr, .. } => {
+            referenced_columns(expr, out)
+        }
+        BoundExpression::InList { expr, list, .. } => {
+            referenced_columns(expr, out);
+            list.iter().for_each(|e| referenced_columns(e, out));
+        }
+        BoundExpression::Between {
+            expr, low, high, ..
+        } => {
+            referenced_columns(expr, out);
+            referenced_columns(low, out);
+            referenced_columns(high, out);
+        }
+        BoundExpression::Function { args, .. } => {
+            args.iter().for_each(|e| referenced_columns(e, out))
+        }
+        _ => {}
+    }
+}
+
 /// Checks if all columns in expr have index >= min.
 fn all_columns_ge(expr: &BoundExpression, min: usize) -> bool {
-    match expr {
-        BoundExpression::ColumnBinding(c) => c.column_idx >= min,
-        BoundExpression::BinaryOp { left, right, .. } => {
-            all_columns_ge(left, min) && all_columns_ge(right, min)
-        }
-        BoundExpression::Literal { .. } => true,
-        _ => true,
-    }
+    let mut cols = Vec::new();
+    referenced_columns(expr, &mut cols);
+    cols.iter().all(|c| *c >= min)
 }
 
 /// Checks if any column in expr is in range [start, end).
 fn any_column_in_range(expr: &BoundExpression, start: usize, end: usize) -> bool {
-    match expr {
-        BoundExpression::ColumnBinding(c) => c.column_idx >= start && c.column_idx < end,
-        BoundExpression::BinaryOp { left, right, .. } => {
-            any_column_in_range(left, start, end) || any_column_in_range(right, start, end)
-        }
-        _ => false,
-    }
+    let mut cols = Vec::new();
+    referenced_columns(expr, &mut cols);
+    cols.iter().any(|c| *c >= start && *c < end)
 }
 
 /// Combines predicates with AND.
@@ -336,6 +405,10 @@ fn check_column_usage(expr: &BoundExpression, left_cols: usize) -> (bool, bool) 
             let (l3, r3) = check_column_usage(high, left_cols);
             (l1 || l2 || l3, r1 || r2 || r3)
         }
+        BoundExpression::Function { args, .. } => args.iter().fold((false, false), |(l, r), a| {
+            let (l2, r2) = check_column_usage(a, left_cols);
+            (l || l2, r || r2)
+        }),
         _ => (false, false),
     }
 }
@@ -370,6 +443,37 @@ fn rewrite_with_mapping(expr: &BoundExpression, mapping: &[usize]) -> BoundExpre
         BoundExpression::IsNull { expr, negated } => BoundExpression::IsNull {
             expr: Box::new(rewrite_with_mapping(expr, mapping)),
             negated: *negated,
+        },
+        BoundExpression::InList {
+            expr,
+            list,
+            negated,
+        } => BoundExpression::InList {
+            expr: Box::new(rewrite_with_mapping(expr, mapping)),
+            list: list.iter().map(|e| rewrite_with_mapping(e, mapping)).collect(),
+            negated: *negated,
+        },
+        BoundExpression::Between {
+            expr,
+            low,
+            high,
+            negated,
+        } => BoundExpression::Between {
+            expr: Box::new(rewrite_with_mapping(expr, mapping)),
+            low: Box::new(rewrite_with_mapping(low, mapping)),
+            high: Box::new(rewrite_with_mapping(high, mapping)),
+            negated: *negated,
+        },
+        BoundExpression::Function {
+            func,
+            args,
+            distinct,
+            return_type,
+        } => BoundExpression::Function {
+            func: func.clone(),
+            args: args.iter().map(|e| rewrite_with_mapping(e, mapping)).collect(),
+            distinct: *distinct,
+            return_type: *return_type,
         },
         _ => expr.clone(),
     }
